@@ -96,6 +96,9 @@ class Unit:
     functions: list = field(default_factory=list)
     requires: list = field(default_factory=list)   # [(class, function, statement text)] that must still be in the source
     object_types: list = field(default_factory=list)  # types whose values are mutable objects (tensors, tensordicts)
+    variables: list = field(default_factory=list)  # section variables EVERY generated function is abstracted over, used or
+                                                   # not (Coq generalises a definition only over the variables it mentions:
+                                                   # mentioning all keeps the signature independent of the body)
     item_get: dict = field(default_factory=dict)   # (container type, key type) -> (Coq function, result type)
     item_set: dict = field(default_factory=dict)   # (container type, key type, value type) -> Coq function
 
@@ -636,6 +639,9 @@ class FnTranslator:
         if e.keywords:
             self.bad(e, "call with keyword arguments")
         f = e.func
+        # a registered module-level function of the same client (or the function itself: recursion)
+        if isinstance(f, ast.Name) and f.id not in env and f.id in self.table and self.spec.cls is None:
+            return self.method_call(f.id, e, env, k)
         # builtins
         if isinstance(f, ast.Name) and f.id not in env:
             if f.id in ("min", "max") and len(e.args) == 2:
@@ -1253,6 +1259,9 @@ class FnTranslator:
             ctx = Ctx(ret=None, fall=seg_end)
         recursive = any(isinstance(n, ast.Call) and isinstance(n.func, ast.Attribute) and n.func.attr == fdef.name
                         and isinstance(n.func.value, ast.Name) and n.func.value.id == "self" for n in ast.walk(fdef))
+        if spec.cls is None:
+            recursive = any(isinstance(n, ast.Call) and isinstance(n.func, ast.Name) and n.func.id == fdef.name
+                            for n in ast.walk(fdef))
         rtypes = ([spec.returns] if spec.returns is not None else []) + [dict(spec.fields)[w] for w in writes]
         if spec.segment_outputs:
             rtypes = [t for _, t in spec.segment_outputs]
@@ -1272,6 +1281,9 @@ class FnTranslator:
             self.bad(fdef, f"{len(self.draw_of)} random draws found, the client declares {spec.draws}")
         if self.uses_fuel and not spec.fuel:
             self.bad(fdef, "loops / recursion in a function declared without fuel")
+        if self.unit.variables:
+            term = Term(f"let _ := ({', '.join(self.unit.variables)}) in  (* fixes the signature: all operations *)\n"
+                        + mon(term), False)
         binder = " ".join(f"({n} : {self.coq_type(t)})" for n, t in coq_params)
         fuelb = "(fuel : nat) " if spec.fuel else ""
         if recursive:
@@ -1601,6 +1613,7 @@ CLIENTS["C10"] = Client(
                  "Variable tscale : Ten -> Sc -> Ten.            (* t * python float *)\n"
                  "Variable gpow : Z -> Sc.                       (* self.gamma ** k *)"),
         carrier=Carrier(T="Ten", ops={"add": "tadd"}),
+        variables=["k_reward", "k_done", "k_ns", "tget", "tset", "tany", "tadd", "tscale", "gpow"],
         object_types=["T", TR_T],
         item_get={(TR_T, KEY_T): ("tget", "T")}, item_set={(TR_T, KEY_T, "T"): "tset"},
         functions=[FnSpec(
@@ -1677,6 +1690,99 @@ def obj_shape(tr, e, env, k):
     return k(f"tshape {env[e.value.id][0]}", ("list", "Z"))
 
 
+SP_T = ("opaque", "Sp")          # a gymnasium space
+OB_T = ("opaque", "Ob")          # an observation: array, dict of arrays or tuple of arrays
+OKEY_T = ("opaque", "okey")      # a key of a Dict observation / space
+
+
+def isinstance_of(cls_src):
+    def m(e, env):
+        return (isinstance(e, ast.Call) and ast.unparse(e.func) == "isinstance" and len(e.args) == 2 and not e.keywords
+                and ast.unparse(e.args[1]) == cls_src)
+    return m
+
+
+def sp_kind(coq):
+    def h(tr, e, env, k):
+        return tr.exprs([e.args[0]], env, c15_obj(tr, e, env, k, coq, [SP_T], result="bool"))
+    return h
+
+
+def attr_shape_of(typ):
+    def m(e, env):
+        return (isinstance(e, ast.Attribute) and e.attr == "shape" and isinstance(e.value, ast.Name)
+                and e.value.id in env and env[e.value.id][1] == typ)
+    return m
+
+
+def shape_by(coq):
+    def h(tr, e, env, k):
+        return k(f"{coq} {env[e.value.id][0]}", ("list", "Z"))
+    return h
+
+
+def is_np_shape(e, env):
+    return (isinstance(e, ast.Call) and ast.unparse(e.func) == "np.shape" and len(e.args) == 1 and not e.keywords)
+
+
+def np_shape(tr, e, env, k):
+    return tr.exprs([e.args[0]], env, c15_obj(tr, e, env, k, "ob_shape", [OB_T], result=("list", "Z")))
+
+
+def sub0_of(typ):
+    def m(e, env):
+        return (isinstance(e, ast.Subscript) and isinstance(e.slice, ast.Constant) and e.slice.value == 0
+                and isinstance(e.value, ast.Name) and e.value.id in env and env[e.value.id][1] == typ)
+    return m
+
+
+def sub0_by(coq, typ):
+    def h(tr, e, env, k):
+        return tr.hoist(e, f"{coq} {env[e.value.id][0]}", typ, k)
+    return h
+
+
+def is_sp_getitem(e, env):
+    return (isinstance(e, ast.Subscript) and isinstance(e.value, ast.Name) and e.value.id in env
+            and env[e.value.id][1] == SP_T and isinstance(e.slice, ast.Name) and e.slice.id in env
+            and env[e.slice.id][1] == OKEY_T)
+
+
+def sp_getitem(tr, e, env, k):
+    return tr.hoist(e, f"sp_get {env[e.value.id][0]} {env[e.slice.id][0]}", SP_T, k)
+
+
+def first_item_stmt(s):
+    """first_key, first_obs = next(iter(<obs>.items()))"""
+    if not (isinstance(s, ast.Assign) and len(s.targets) == 1 and isinstance(s.targets[0], ast.Tuple)
+            and len(s.targets[0].elts) == 2 and all(isinstance(x, ast.Name) for x in s.targets[0].elts)):
+        return False
+    v = s.value
+    return (isinstance(v, ast.Call) and ast.unparse(v.func) == "next" and len(v.args) == 1
+            and isinstance(v.args[0], ast.Call) and ast.unparse(v.args[0].func) == "iter" and len(v.args[0].args) == 1
+            and isinstance(v.args[0].args[0], ast.Call) and isinstance(v.args[0].args[0].func, ast.Attribute)
+            and v.args[0].args[0].func.attr == "items" and not v.args[0].args[0].args
+            and isinstance(v.args[0].args[0].func.value, ast.Name))
+
+
+def first_item(tr, s, rest, env, ctx):
+    oname = s.value.args[0].args[0].func.value.id
+    if oname not in env or env[oname][1] != OB_T:
+        tr.bad(s, "first item of something that is not an observation")
+    env2, ck = tr.bind_var(s.targets[0].elts[0].id, env, OKEY_T, s)
+    env2, co = tr.bind_var(s.targets[0].elts[1].id, env2, OB_T, s)
+    return let_(f"'({ck}, {co})", Term(f"ob_first_item {env[oname][0]}", False), tr.block(rest, env2, ctx))
+
+
+C15_VECT_CONTEXT = ("Context {Sp Ob okey : Type}.\n"
+                    "Variables (sp_is_dict sp_is_tuple sp_is_multibinary : Sp -> bool).  (* isinstance(space, spaces.X) *)\n"
+                    "Variable sp_shape : Sp -> list Z.                  (* space.shape *)\n"
+                    "Variable ob_shape : Ob -> list Z.                  (* obs.shape / np.shape(obs) *)\n"
+                    "Variable ob_first_item : Ob -> res (okey * Ob).    (* next(iter(obs.items())) *)\n"
+                    "Variable sp_get : Sp -> okey -> res Sp.            (* space[key] *)\n"
+                    "Variable ob_first : Ob -> res Ob.                  (* obs[0] *)\n"
+                    "Variable sp_first : Sp -> res Sp.                  (* space[0] *)")
+
 CLIENTS["C15"] = Client(
     pid="C15",
     imports="From Coq Require Import List ZArith Bool.\nImport ListNotations.\nFrom AgileV Require Import TR.PyLib.",
@@ -1691,6 +1797,7 @@ CLIENTS["C15"] = Client(
                  "Variable np_reshape_rows : Tn -> list Z -> res Tn.    (* obs.reshape(-1, *shape) *)\n"
                  "Variable t_view_rows : Tn -> list Z -> res Tn.        (* obs.view(-1, *shape) *)"),
         carrier=Carrier(T="unit"), object_types=[TN_T],
+        variables=["tshape", "is_ndarray", "np_expand_dims0", "t_unsqueeze0", "np_reshape_rows", "t_view_rows"],
         functions=[FnSpec(
             cls=None, name="maybe_add_batch_dim", coq="maybe_add_batch_dim", returns=TN_T,
             params={"obs": TN_T, "space_shape": ("list", "Z")},
@@ -1700,7 +1807,24 @@ CLIENTS["C15"] = Client(
                            (call_shape(method="reshape", nargs=2, star_last=True), c15_rows("np_reshape_rows")),
                            (call_shape(method="view", nargs=2, star_last=True), c15_rows("t_view_rows")),
                            (call_shape(fn_src="isinstance", nargs=2), c15_isinstance_np)],
-            theorem="C15_translated_maybe_add_batch_dim_is_model")])])
+            theorem="C15_translated_maybe_add_batch_dim_is_model")]),
+        Unit(
+        file="agilerl/utils/algo_utils.py", section="GenVectDim", context=C15_VECT_CONTEXT,
+        carrier=Carrier(T="unit"), object_types=[SP_T, OB_T],
+        variables=["sp_is_dict", "sp_is_tuple", "sp_is_multibinary", "sp_shape", "ob_shape", "ob_first_item", "sp_get",
+                   "ob_first", "sp_first"],
+        functions=[FnSpec(
+            cls=None, name="get_vect_dim", coq="get_vect_dim", returns="Z", fuel=True,
+            params={"observation": OB_T, "observation_space": SP_T},
+            expr_matchers=[(isinstance_of("spaces.Dict"), sp_kind("sp_is_dict")),
+                           (isinstance_of("spaces.Tuple"), sp_kind("sp_is_tuple")),
+                           (isinstance_of("spaces.MultiBinary"), sp_kind("sp_is_multibinary")),
+                           (attr_shape_of(SP_T), shape_by("sp_shape")), (attr_shape_of(OB_T), shape_by("ob_shape")),
+                           (is_np_shape, np_shape),
+                           (sub0_of(OB_T), sub0_by("ob_first", OB_T)), (sub0_of(SP_T), sub0_by("sp_first", SP_T)),
+                           (is_sp_getitem, sp_getitem)],
+            stmt_shapes=[(first_item_stmt, first_item)],
+            theorem="C15_translated_get_vect_dim_is_model")])])
 
 
 def translate_pid(pid: str, repo: Path):
